@@ -472,9 +472,6 @@ Qed.
 
 (* ------------------------------------------------------------- every step *)
 
-Definition step_t (t : table) (o : op) : table := fst (fst (step t o)).
-Definition step_cs (t : table) (o : op) : list change := snd (fst (step t o)).
-
 Lemma net_ok_step f t o net :
   inv1 f t -> invE t -> op_wf f o -> net_ok t (step_t t o) (step_cs t o) net.
 Proof.
@@ -622,3 +619,246 @@ Proof.
 Qed.
 
 End Consumer.
+
+(* ========================================================= final statements *)
+
+Lemma reach_inv shard ops o :
+  consistent (ops ++ [o]) ->
+  exists f, inv1 f (run (empty_table shard) ops) /\ invE (run (empty_table shard) ops) /\ op_wf f o.
+Proof.
+  intros [f Hf]. apply Forall_app in Hf as [Hf Ho]. exists f. split; [|split].
+  - apply inv1_run; [apply inv1_empty|exact Hf].
+  - apply invE_run, invE_empty.
+  - apply Forall_inv in Ho. exact Ho.
+Qed.
+
+(* every notification carries the prefix's new ranked eligible list ([] when
+   the prefix is gone) and its destination id *)
+Lemma C06_change_carries_current_list :
+  forall shard ops o c,
+    consistent (ops ++ [o]) ->
+    let t := run (empty_table shard) ops in
+    In c (step_cs t o) ->
+    c_paths c = elig_of (step_t t o) (c_net c)
+    /\ Some (c_dest_id c) = match id_of (step_t t o) (c_net c) with
+                            | Some i => Some i
+                            | None => id_of t (c_net c)
+                            end.
+Proof.
+  intros shard ops o c Hc t Hin. destruct (reach_inv shard ops o Hc) as (f & H1 & He & Hw). fold t in H1, He.
+  destruct (net_ok_step f t o (c_net c) H1 He Hw) as [H _].
+  destruct (H c Hin eq_refl) as (_ & Hp & Hi & _). split; [exact Hp|exact Hi].
+Qed.
+
+(* the two flags are sound for skipping *)
+Lemma C06_skip_flags_sound :
+  forall shard ops o c,
+    consistent (ops ++ [o]) ->
+    let t := run (empty_table shard) ops in
+    In c (step_cs t o) ->
+    (c_best_changed c = false ->
+     head_content (elig_of t (c_net c)) = head_content (elig_of (step_t t o) (c_net c)))
+    /\ (c_any_changed c = false -> elig_of t (c_net c) = elig_of (step_t t o) (c_net c)).
+Proof.
+  intros shard ops o c Hc t Hin. destruct (reach_inv shard ops o Hc) as (f & H1 & He & Hw). fold t in H1, He.
+  destruct (net_ok_step f t o (c_net c) H1 He Hw) as [H _].
+  destruct (H c Hin eq_refl) as (_ & _ & _ & Hb & Ha). split; assumption.
+Qed.
+
+(* a prefix that gets no notification keeps its eligible list, except that an
+   insert held back by deferral may have changed it, and then it is not empty
+   (so end_deferral will announce it) *)
+Lemma C06_silent_prefix_unchanged :
+  forall shard ops o net,
+    consistent (ops ++ [o]) ->
+    let t := run (empty_table shard) ops in
+    (forall c, In c (step_cs t o) -> c_net c <> net) ->
+    elig_of t net = elig_of (step_t t o) net
+    \/ (t_deferring t = true /\ t_deferring (step_t t o) = true /\ elig_of (step_t t o) net <> []).
+Proof.
+  intros shard ops o net Hc t Hno. destruct (reach_inv shard ops o Hc) as (f & H1 & He & Hw). fold t in H1, He.
+  destruct (net_ok_step f t o net H1 He Hw) as [_ H]. apply H, Hno.
+Qed.
+
+Lemma find_loc_none net ds :
+  ~ In net (map fst ds) ->
+  find (fun c => c_net c =? net)
+       (flat_map (fun nd => match elig_list (snd nd) with
+                            | [] => []
+                            | _ => [{| c_net := fst nd; c_dest_id := d_id (snd nd); c_best_changed := true;
+                                       c_any_changed := true; c_replaced := None; c_paths := elig_list (snd nd) |}]
+                            end) ds) = None.
+Proof.
+  induction ds as [|[n d] r IH]; cbn [flat_map map fst snd]; intro Hn; [reflexivity|].
+  assert (Hne : (n =? net) = false) by (apply N.eqb_neq; intro; apply Hn; left; assumption).
+  assert (Hr : ~ In net (map fst r)) by (intro; apply Hn; right; assumption).
+  destruct (elig_list d); cbn [app find c_net]; [|rewrite Hne]; apply IH, Hr.
+Qed.
+
+Lemma locrib_view_elig t net : NoDup (map fst (t_dests t)) -> locrib_view t net = elig_of t net.
+Proof.
+  unfold locrib_view, elig_of, loc_rib. generalize (t_dests t). intro ds.
+  induction ds as [|[n d] r IH]; cbn [flat_map map fst snd alookup]; intro Hk; [reflexivity|].
+  apply NoDup_cons_iff in Hk as [Hn Hr].
+  destruct (net =? n) eqn:En.
+  - apply N.eqb_eq in En. subst n. destruct (elig_list d) as [|x xs] eqn:E; cbn [app find c_net].
+    + rewrite (find_loc_none net r Hn). reflexivity.
+    + rewrite N.eqb_refl. reflexivity.
+  - rewrite N.eqb_sym in En. destruct (elig_list d) as [|x xs] eqn:E; cbn [app find c_net]; [|rewrite En]; apply IH, Hr.
+Qed.
+
+(* the full consumer *)
+Lemma C06_fold_all_changes_eq_locrib :
+  forall shard ops,
+    consistent ops ->
+    let t := run (empty_table shard) ops in
+    t_deferring t = false ->
+    forall net, snd (consume full_apply (empty_table shard) (fun _ => []) ops) net = locrib_view t net.
+Proof.
+  intros shard ops Hc t Hd net.
+  rewrite locrib_view_elig by (apply invE_run, invE_empty).
+  change full_apply with (gen_apply (list entry) (fun _ => true) (fun l => l)).
+  apply (consume_correct (list entry) (fun _ => true) (fun l => l)); try assumption.
+  - intros c old new H. discriminate.
+  - reflexivity.
+Qed.
+
+(* a consumer that skips best_changed = false still holds the best path *)
+Lemma C06_best_only_consumer_correct :
+  forall shard ops,
+    consistent ops ->
+    let t := run (empty_table shard) ops in
+    t_deferring t = false ->
+    forall net, snd (consume best_apply (empty_table shard) (fun _ => None) ops) net
+                = head_content (locrib_view t net).
+Proof.
+  intros shard ops Hc t Hd net.
+  rewrite locrib_view_elig by (apply invE_run, invE_empty).
+  change best_apply with (gen_apply _ c_best_changed head_content).
+  apply (consume_correct _ c_best_changed head_content); try assumption.
+  - intros c old new Hr Hb _. specialize (Hb Hr). split; [exact Hb|].
+    intros Ho ->. destruct old; [contradiction|discriminate].
+  - intros c Hb _. exact Hb.
+Qed.
+
+(* an add-path consumer with any window that skips any_changed = false *)
+Lemma C06_addpath_consumer_correct :
+  forall shard ops n,
+    consistent ops ->
+    let t := run (empty_table shard) ops in
+    t_deferring t = false ->
+    forall net, snd (consume (addpath_apply n) (empty_table shard) (fun _ => limit n []) ops) net
+                = limit n (locrib_view t net).
+Proof.
+  intros shard ops n Hc t Hd net.
+  rewrite locrib_view_elig by (apply invE_run, invE_empty).
+  change (addpath_apply n) with (gen_apply _ c_any_changed (limit n)).
+  apply (consume_correct _ c_any_changed (limit n)); try assumption.
+  - intros c old new Hr _ Ha. specialize (Ha Hr). subst new. split; [reflexivity|tauto].
+  - intros c _ Ha. exact Ha.
+Qed.
+
+(* end_deferral announces exactly the prefixes that have an eligible path,
+   each once with its full list and both flags set; an insert held back by the
+   deferral reports at most the withdrawal of the prefix *)
+Lemma C06_end_deferral_emits_all :
+  forall shard ops,
+    let t := run (empty_table shard) ops in
+    let t' := step_t t EndDeferral in
+    let cs := step_cs t EndDeferral in
+    t_deferring t' = false
+    /\ cs = loc_rib t' None
+    /\ NoDup (map c_net cs)
+    /\ (forall net, (exists c, In c cs /\ c_net c = net) <-> elig_of t' net <> [])
+    /\ (forall c, In c cs -> c_paths c = elig_of t' (c_net c) /\ id_of t' (c_net c) = Some (c_dest_id c)
+                             /\ c_best_changed c = true /\ c_any_changed c = true).
+Proof.
+  intros shard ops t t' cs.
+  assert (Hk : NoDup (map fst (t_dests t))) by (apply invE_run, invE_empty).
+  split; [reflexivity|]. split; [reflexivity|]. unfold cs, t', step_cs, step_t. cbn [step fst snd].
+  split; [|split].
+  - unfold loc_rib. cbn [set_deferring t_dests]. revert Hk. generalize (t_dests t). intro ds.
+    induction ds as [|[n d] r IH]; cbn [flat_map map fst snd]; intro Hk; [constructor|].
+    apply NoDup_cons_iff in Hk as [Hn Hr]. rewrite map_app.
+    destruct (elig_list d); cbn [map app c_net]; [apply IH, Hr|]. constructor; [|apply IH, Hr].
+    intro Hin. apply Hn. apply in_map_iff in Hin as (c & <- & Hin). apply in_flat_map in Hin as ([n1 d1] & Hin & Hc).
+    cbn [fst snd] in Hc. destruct (elig_list d1); [destruct Hc|]. destruct Hc as [<-|[]]. cbn [c_net].
+    apply in_map_iff. exists (n1, d1). split; [reflexivity|exact Hin].
+  - intro net. rewrite elig_of_set_deferring. split.
+    + intros (c & Hin & Hn). apply in_loc_rib in Hin as (n & d & Hin & Hne & ->). cbn [c_net] in Hn. subst n.
+      cbn [set_deferring t_dests] in Hin. unfold elig_of. rewrite (in_alookup _ _ _ Hk Hin). exact Hne.
+    + intro Hne. unfold elig_of in Hne. destruct (alookup net (t_dests t)) as [d|] eqn:Hd; [|contradiction].
+      apply alookup_in in Hd. eexists. split; [apply in_loc_rib; exists net, d; repeat split; eassumption|reflexivity].
+  - intros c Hin. apply in_loc_rib in Hin as (n & d & Hin & Hne & ->). cbn [set_deferring t_dests] in Hin.
+    cbn [c_net c_paths c_dest_id c_best_changed c_any_changed]. unfold elig_of, id_of. cbn [set_deferring t_dests].
+    rewrite (in_alookup _ _ _ Hk Hin). repeat split; reflexivity.
+Qed.
+
+Lemma ins_out_deferring t d0 d2 net replaced filt :
+  t_deferring t = true ->
+  ins_out t d0 d2 net replaced filt = ONoChange
+  \/ (elig_list d0 <> [] /\ elig_list d2 = []
+      /\ exists c, ins_out t d0 d2 net replaced filt = OChanged c /\ c_net c = net /\ c_paths c = []).
+Proof.
+  intro Hd. unfold ins_out. rewrite Hd. cbn [andb]. rewrite !best_key_head.
+  destruct (elig_list d0) as [|x xs]; cbn [head_content negb]; [left; reflexivity|].
+  destruct (elig_list d2) as [|y ys]; cbn [head_content negb]; [|left; reflexivity].
+  right. split; [discriminate|]. split; [reflexivity|]. cbn [key_eqb negb andb].
+  eexists. split; [reflexivity|]. split; reflexivity.
+Qed.
+
+Lemma C06_deferred_insert_reports_only_withdrawal :
+  forall shard ops s net rpid nh a filt nhinv lim,
+    let t := run (empty_table shard) ops in
+    t_deferring t = true ->
+    step_cs t (Insert s net rpid nh a filt nhinv lim) = []
+    \/ exists c, step_cs t (Insert s net rpid nh a filt nhinv lim) = [c]
+                 /\ c_net c = net /\ c_paths c = [] /\ elig_of t net <> []
+                 /\ elig_of (step_t t (Insert s net rpid nh a filt nhinv lim)) net = [].
+Proof.
+  intros shard ops s net rpid nh a filt nhinv lim t Hd. unfold step_cs, step_t. cbn [step].
+  unfold insert. cbv zeta.
+  destruct (ins_over t lim _); [left; reflexivity|].
+  destruct (ins_pid _ _ _) as [pn|]; [|left; reflexivity].
+  set (d0 := fst (ins_lookup t net)).
+  match goal with |- context [ins_out t d0 ?d ?n ?r ?f] =>
+    set (d2 := d); destruct (ins_out_deferring t d0 d2 n r f Hd) as [E|(H0 & H2 & c & E & Hn & Hp)]; rewrite E
+  end; [left; reflexivity|].
+  right. exists c. cbn [fst snd]. split; [reflexivity|]. split; [exact Hn|]. split; [exact Hp|].
+  rewrite (elig_of_ins_lookup t net). split; [exact H0|].
+  unfold elig_of. cbn [t_dests]. rewrite alookup_aset, N.eqb_refl. exact H2.
+Qed.
+
+(* ------------------------------------------------------------ non-vacuity *)
+
+Definition ex6_ops : list op :=
+  [ Insert (ex_src 1 1 9 0) 1 0 (Some 1) (ex_attr 100 200) false false None;
+    Insert (ex_src 2 2 5 2) 1 0 (Some 2) (ex_attr 101 100) false false None;
+    StartDeferral;
+    Insert (ex_src 3 3 7 0) 2 0 (Some 3) (ex_attr 102 100) false false None;
+    NhValidity 3 false;
+    NhValidity 3 true;
+    Insert (ex_src 3 3 7 0) 2 0 (Some 3) (ex_attr 102 100) true false None;
+    Insert (ex_src 2 2 5 2) 1 1 (Some 2) (ex_attr 103 100) false false None;
+    Restale false 2;
+    Remove (ex_src 2 2 5 2) 1 1 None;
+    EndDeferral ].
+
+Example ex6_consistent : consistent ex6_ops.
+Proof. exists (fun tok => tok). repeat constructor. Qed.
+
+Example ex6_bounded : bounded (empty_table 0) ex6_ops.
+Proof. vm_compute. repeat split. Qed.
+
+Example ex6_not_deferring : t_deferring (run (empty_table 0) ex6_ops) = false.
+Proof. reflexivity. Qed.
+
+(* the history emits notifications a best-path consumer skips and one an
+   add-path consumer skips, and the deferred withdrawal *)
+Example ex6_flags :
+  map (fun c => (c_net c, c_best_changed c, c_any_changed c, length (c_paths c)))
+      (flat_map (fun k => step_cs (run (empty_table 0) (firstn k ex6_ops)) (nth k ex6_ops StartDeferral))
+                [0; 1; 2; 3; 4; 5; 6; 7; 8; 9; 10]%nat)
+  = [(1, true, true, 1%nat); (1, false, true, 2%nat); (2, true, true, 0%nat); (2, true, true, 1%nat);
+     (2, true, true, 0%nat); (1, false, true, 3%nat); (1, false, true, 2%nat); (1, true, true, 2%nat)].
+Proof. vm_compute. reflexivity. Qed.
